@@ -151,6 +151,16 @@ def check(spec):
                     seen_seq.append(i)
                 if tag and tag.calls != accesses:
                     raise Violation("transform-not-applied-on-every-access", f"{tag.calls} transform calls for {accesses} accesses")
+            elif k == "copy":
+                import copy
+                try:
+                    sd = copy.copy(sd)
+                except RecursionError as e:
+                    raise Violation("copy-of-cached-dataset-fails:RecursionError", "copy.copy(cached dataset) recursed (attribute delegation before "
+                                                                                   "the instance is initialised) - unpickling in spawned readers fails alike")
+                if len(sd) != n:
+                    raise Violation("len-differs", "after copy")
+                flags.add("copy")
             elif k == "oob":
                 j = n + op[1]
                 try:
@@ -249,7 +259,7 @@ def check(spec):
 
 @st.composite
 def op(draw, tier):
-    k = draw(st.sampled_from(["get", "get", "get", "many", "clear", "oob", "iterate"] + (["readers"] if tier == "thorough" else ["readers"] * 0)))
+    k = draw(st.sampled_from(["get", "get", "get", "many", "clear", "oob", "iterate", "copy"] + (["readers"] if tier == "thorough" else ["readers"] * 0)))
     if k == "get":
         return ["get", draw(st.integers(0, 30))]
     if k == "many":
@@ -260,6 +270,8 @@ def op(draw, tier):
         return ["oob", draw(st.integers(0, 5))]
     if k == "iterate":
         return ["iterate"]
+    if k == "copy":
+        return ["copy"]
     R = draw(st.sampled_from([2, 3]))
     return ["readers", [draw(st.lists(st.integers(0, 30), min_size=1, max_size=5)) for _ in range(R)]]
 
